@@ -290,6 +290,8 @@ class UAIReader(object):
 
         elif self.network_type == "MARKOV":
             model = MarkovNetwork(self.edges)
+            # Variables that occur in unary functions only have no edge.
+            model.add_nodes_from([var for var in self.variables if var not in model])
 
             factors = []
             for table in self.tables:
